@@ -209,6 +209,7 @@ fn explore(cx: &mut Ctx, rng: &mut Rng) {
         register_pressure_cases(thorough, &mut sink);
         iterator_reentrancy_cases(&sweep.eps, &mut sink);
         extreme_depth_cases(&mut sink);
+        meta_mutator_cases(&sweep.eps, thorough, &mut sink);
     }
     if let Some(f) = &only {
         cases.retain(|c| c.apis.iter().any(|a| a.contains(f.as_str())));
@@ -239,6 +240,7 @@ fn explore(cx: &mut Ctx, rng: &mut Rng) {
         register_pressure_cases(thorough, &mut sink);
         iterator_reentrancy_cases(&sweep.eps, &mut sink);
         extreme_depth_cases(&mut sink);
+        meta_mutator_cases(&sweep.eps, thorough, &mut sink);
     }
     let cases = std::mem::take(&mut b.buf);
     eprintln!("[c06] control-flow / register-pressure / iterator-reentrancy cases: {}", cases.len());
